@@ -245,50 +245,42 @@ def handleBin (t : Toks) : String :=
                 | some q => !sameSet q (proposals never files)
                 | none => false
               if propDiff then "MODEL-DIFF proposals" else
-              -- per association: what the model sends
-              let obs (a : Assoc) : List (Uid × Nat) := a.stores.map fun s => (s.inst, s.pcid)
-              let pred (a : Assoc) (fs : List FileInfo) : List (Uid × Nat) × Bool :=
-                let r := session true reg a.pcs ign never ff fs
-                (r.1.map fun p => (p.file.inst, p.pc.id), r.2)
+              -- what the model sends. Only what the property talks about is compared: which files
+              -- go out and on which context (not the order of the stores: `session` fixes one, the
+              -- statement none), and whether the run ends by release or (--fail-first) by abort.
               let established (a : Assoc) : Bool := !a.pcs.isEmpty && a.fin != "noassoc"
-              let checkOne (a : Assoc) (fs : List FileInfo) : Option String :=
-                if !established a then
-                  if a.stores.isEmpty then none else some "stores-without-association"
-                else
-                  let (p, ab) := pred a fs
-                  if obs a != p then some s!"stores model={p.map (·.2)} impl={(obs a).map (·.2)}"
-                  else if ab && a.fin != "abort" then some s!"end model=abort impl={a.fin}"
-                  else if !ab && a.fin != "release" then some s!"end model=release impl={a.fin}"
-                  else if ab && exit == "x0" then some "exit model=failure impl=x0"
-                  else none
+              let badStore := firstSome (fun a =>
+                if !established a then (if a.stores.isEmpty then none else some "stores-without-association") else
+                firstSome (fun s =>
+                  match files.find? (·.inst == s.inst) with
+                  | none => some "unknown"
+                  | some f => match plan true reg a.pcs ign never f with
+                    | .ok p => if p.pc.id == s.pcid then none else some s!"store model={p.pc.id} impl={s.pcid}"
+                    | .error _ => some "store model=skip") a.stores) assocs
               let diff : Option String :=
-                if mode == "sync" then
-                  match assocs with
-                  | [a] => checkOne a files
-                  | _ => some s!"associations impl={assocs.length}"
-                else if mode == "async1" then
-                  match assocs with
-                  | [a] => checkOne a files.reverse
-                  | _ => some s!"associations impl={assocs.length}"
-                else
-                  -- two workers share the files: every store as planned, every sendable file once
-                  let bad := firstSome (fun a =>
-                    if !established a then (if a.stores.isEmpty then none else some "stores-without-association") else
-                    firstSome (fun s =>
-                      match files.find? (·.inst == s.inst) with
-                      | none => some "unknown"
-                      | some f => match plan true reg a.pcs ign never f with
-                        | .ok p => if p.pc.id == s.pcid then none else some s!"store model={p.pc.id} impl={s.pcid}"
-                        | .error _ => some "store model=skip") a.stores) assocs
-                  match bad with
-                  | some b => some b
-                  | none =>
-                    match assocs.find? established with
-                    | none => none
-                    | some a0 =>
-                      let want := (pred a0 files).1.map (·.1)
-                      if want.all (allInst.contains ·) && allInst.all (want.contains ·) then none
-                      else some s!"sent-set model={want.length} impl={allInst.length}"
+                match badStore with
+                | some b => some b
+                | none =>
+                  let nAssoc := if mode == "async2" then 2 else 1
+                  if assocs.length != nAssoc then some s!"associations model={nAssoc} impl={assocs.length}" else
+                  match assocs.find? established with
+                  | none => none
+                  | some a0 =>
+                    let r := session true reg a0.pcs ign never ff files
+                    let want := (session true reg a0.pcs ign never false files).1.map (·.file.inst)
+                    if r.2 then
+                      -- aborted at the first file without a context: a part of the sendable files
+                      if !allInst.all (want.contains ·) then some "sent-set not within model"
+                      else if assocs.any (fun a => established a && a.fin != "abort") then
+                        some s!"end model=abort impl={assocs.map (·.fin)}"
+                      else if exit == "x0" then some "exit model=failure impl=x0"
+                      else none
+                    else
+                      if !(want.all (allInst.contains ·) && allInst.all (want.contains ·)) then
+                        some s!"sent-set model={want.length} impl={allInst.length}"
+                      else if assocs.any (fun a => established a && a.fin != "release") then
+                        some s!"end model=release impl={assocs.map (·.fin)}"
+                      else none
               match diff with
               | some d => s!"MODEL-DIFF {d}"
               | none =>
